@@ -44,6 +44,7 @@ CONSTANTS
  E2E = TRUE
  Aead = TRUE
  CheckIdent = TRUE
+ RelayOnce = TRUE
  AutoTimers = FALSE
 %(locate)sINVARIANT ExitIntegrity
 INVARIANT ReturnIntegrity
@@ -54,6 +55,7 @@ INVARIANT ExitOnlyOwn
 INVARIANT NoShadow
 INVARIANT NoForeignKey
 INVARIANT KeyAgreement
+INVARIANT PathAgreement
 INVARIANT RelayEarlyBudget
 INVARIANT Reclaimed
 PROPERTY EntriesStable
